@@ -73,6 +73,8 @@ type writeLog struct {
 	recs []writeRec
 }
 
+type splitRec struct{ ref, src, sep string }
+
 type Exec struct {
 	eng          *Engine
 	sc           *Script
@@ -122,6 +124,7 @@ type Exec struct {
 	clockReads      []string
 	submatches      []submatchRec
 	sorts           []sortRec
+	splits          []splitRec // results of strings.Split in this execution
 	curInstr        ssa.Instruction
 	curFrame        *Frame
 	curReach        string
